@@ -869,4 +869,7 @@ def check(ctx):
     check_fingerprint(ix, rep)
     check_mpstate(ix, rep)
     check_opstate(ix, rep)
+    from .c05_extra import extra
+
+    extra(ctx, rep)
     return rep
